@@ -15,6 +15,7 @@ class ProtocolRecorder:
         self.lock = threading.Lock()
         self._orig = {}
         self._ended = False
+        self.removals = []        # one record per removal event: configuration + the repair protocol's events
 
     def log(self, **e):
         with self.lock:
@@ -57,6 +58,9 @@ class ProtocolRecorder:
                 rec.log(e="run_send", a=agt)
             elif t == "stop":
                 rec.log(e="stop_send", a=agt)
+            elif t in ("pause_computations", "agent_removed", "setup_repair", "repair_run", "resume_computations"):
+                rec.rlog(e={"pause_computations": "pause_send", "agent_removed": "removed_send", "setup_repair": "setup_send",
+                            "repair_run": "run_send", "resume_computations": "resume_send"}[t], a=agt)
             return o_send(self, agt, msg)
 
         def on_end(self, sender, msg, t):
@@ -76,6 +80,52 @@ class ProtocolRecorder:
             elif isinstance(computations, str) and computations in rec.comps and self.name != "orchestrator":
                 rec.log(e="start", c=computations, a=self.name)
             return o_run(self, computations)
+        # ---- repair orchestration (spec/RepairProtocol.tla) ----
+        from pydcop.reparation.removal import _removal_orphaned_computations
+        o_rem = AgentsMgt._agents_removal
+        o_ready = AgentsMgt._on_repair_ready
+        o_done = AgentsMgt._on_repair_done
+        o_dump = AgentsMgt._dump_repair_metrics
+        self._orig.update({(AgentsMgt, "_agents_removal"): o_rem, (AgentsMgt, "_on_repair_ready"): o_ready,
+                           (AgentsMgt, "_on_repair_done"): o_done, (AgentsMgt, "_dump_repair_metrics"): o_dump})
+
+        def rlog(**e):
+            with rec.lock:
+                if rec.removals:
+                    rec.removals[-1]["ev"].append(e)
+                else:
+                    rec.pending.append(e)
+
+        def agents_removal(self, leaving_agents):
+            orphaned = sorted(_removal_orphaned_computations(leaving_agents, self.discovery))
+            reps = {}
+            for c in orphaned:
+                try:
+                    reps[c] = sorted(self.discovery.replica_agents(c))
+                except Exception:
+                    reps[c] = []
+            with rec.lock:
+                rec.removals.append({"leaving": sorted(leaving_agents), "orphaned": orphaned, "reps": reps, "ev": list(rec.pending) + [{"e": "removal"}]})
+                rec.pending = []
+            return o_rem(self, leaving_agents)
+
+        def on_ready(self, sender_name, msg, t):
+            rlog(e="ready", a=msg.agent)
+            return o_ready(self, sender_name, msg, t)
+
+        def on_done(self, sender_name, msg, t):
+            rlog(e="done", a=msg.agent, sel=sorted(msg.selected_computations))
+            return o_done(self, sender_name, msg, t)
+
+        def dump(self, status, duration):
+            rlog(e="repair_end", status=status)
+            return o_dump(self, status, duration)
+        rec.pending = []
+        rec.rlog = rlog
+        AgentsMgt._agents_removal = agents_removal
+        AgentsMgt._on_repair_ready = on_ready
+        AgentsMgt._on_repair_done = on_done
+        AgentsMgt._dump_repair_metrics = dump
         AgentsMgt._cb_agent_registration = cb_agent
         AgentsMgt._cb_computation_registration = cb_comp
         AgentsMgt._send_mgt_msg = send
